@@ -1503,10 +1503,17 @@ class Real(base.SimpleAsn1Type):
         return float(self) <= value
 
     def __eq__(self, value):
-        return float(self) == value
+        try:
+            return float(self) == value
+
+        except OverflowError:
+            # out of the float range (on either side): equal only to
+            # the same mantissa/base/exponent triple
+            return (isinstance(value, Real) and value.isValue and
+                    self._value == value._value)
 
     def __ne__(self, value):
-        return float(self) != value
+        return not self == value
 
     def __gt__(self, value):
         return float(self) > value
